@@ -1,10 +1,10 @@
 package main
 
 import (
-	"os"
 	"fmt"
 	"go/token"
 	"go/types"
+	"os"
 	"sort"
 	"strings"
 
@@ -57,6 +57,7 @@ func checkC02(c *Ctx) {
 		nilContextSafe(c, p, m, "R02.9")
 		callerArgsUntouched(c, p, "R10.7")
 		c03Routing(c, p, m)
+		c03Frames(c, p, m)
 		c01Gates(c, p, m, tags)
 		c13Fanout(c, p, m)
 	}
@@ -64,6 +65,7 @@ func checkC02(c *Ctx) {
 	r.Rule("R01.1", "(shared with C01) not admitted means no destination is written: every path from an entry point to the Write crosses the admitting edge of the logger's own gate")
 	r.Rule("R13.1", "(shared with C13) every destination selected receives the record: the fan-out loop has its natural exit only, ranges over every member and hands each the whole payload")
 	r.Rule("R03.1", "(shared with C03) the destination selected for a severity is never an empty per-level list while a documented alternative exists: the routing decision function equals the documented one")
+	r.Rule("R03.3", "(shared with C03) the set of destinations selected is what the writer operations denote: each operation writes exactly its own list with the right shape (add appends to the SAME list, set replaces, remove cuts the matched element)")
 	r.Rule("R03.2", "(shared with C03) own writer set when present, package default otherwise")
 	c.Floor["R02.1"] = 40
 	c.Floor["R02.2"] = 3
@@ -672,7 +674,6 @@ func after(a, b ssa.Instruction) bool {
 }
 
 var _ = token.NoPos
-
 
 // allBytesWhite: fn(s string) bool answers "every byte of s is white space" (true for the empty string): a loop
 // over every index of s whose body leaves with false exactly when the byte equals none of a set of white-space
